@@ -1,5 +1,116 @@
+import NessaiVerif.Model.LoopsRun
 import NessaiVerif.Driver.Parse
-/- stub: replaced by the owner of this area -/
+/-
+C15 line protocol (first token `loop` already consumed by the dispatcher).
+Extended rationals: `inf`, `-inf`, `p/q`, `p`.  Caps: `inf` or an integer.  Lists `[a,b,c]`.
+
+  std <finalised> <iteration> <cond> <tol> <cap> <nlive> <live|none> <nested> <traj>
+      NestedSampler.nested_sampling_loop on a scripted trajectory, then a SECOND call on the result
+      → `k=<bodies of call 1> it= fin= cond= live= nested= incs= k2=<bodies of call 2> same=<call 2 changed nothing>`
+        or `running` (trajectory exhausted while the loop continues)
+  ins <finalised> <iteration> <crit> <tol> <any> <min> <cap> <live|none> <nested> <traj>
+      the same for ImportanceNestedSampler
+  reached <any> <crit> <tol>
+  cfg <names> <nTol> <check>          configure_stopping_criterion
+  cfgit <min|none> <max|none>         configure_iterations;   cfgmax <max|none>  configure_max_iteration
+  crit <weights> <aboveMask> <liveMask>   exact criteria (linear domain)
+-/
 namespace NessaiVerif.Driver.Loops
-def handle (_toks : List String) : String := "bad-op"
+open NessaiVerif NessaiVerif.Parse NessaiVerif.Loops NessaiVerif.Gen.Loops
+
+def parseExt? (s : String) : Option Ext :=
+  if s == "inf" then some .pinf else if s == "-inf" then some .ninf else (parseRat? s).map .fin
+def showExt : Ext → String
+  | .pinf => "inf" | .ninf => "-inf" | .fin q => showRat q
+def parseCap? (s : String) : Option Cap :=
+  if s == "inf" then some .inf else (parseInt? s).map .fin
+def showCap : Cap → String
+  | .inf => "inf" | .fin m => toString m
+
+def showStd (s : Std Ext) : String :=
+  s!"it={s.iteration} fin={showBool s.finalised} cond={showExt s.condition} live={showOpt (showList toString) s.live} " ++
+  s!"nested={showList toString s.nested} incs={showList (fun q => s!"{q.1}:{q.2}") s.incs}"
+
+def sameStd (a b : Std Ext) : Bool :=
+  a.finalised == b.finalised && a.iteration == b.iteration && a.condition == b.condition && a.live == b.live &&
+  a.nested == b.nested && a.incs == b.incs && a.bodies == b.bodies
+
+def showIns (s : Ins Ext) : String :=
+  s!"it={s.iteration} fin={showBool s.finalised} crit={showList showExt s.criterion} " ++
+  s!"live={showOpt (showList toString) s.live} nested={showList toString s.nested}"
+
+def sameIns (a b : Ins Ext) : Bool :=
+  a.finalised == b.finalised && a.iteration == b.iteration && a.criterion == b.criterion && a.live == b.live &&
+  a.nested == b.nested && a.bodies == b.bodies
+
+def critLine (ws : List Rat) (above live : List Bool) : String :=
+  let pick (m : List Bool) (b : Bool) := (ws.zip m).filterMap fun p => if p.2 == b then some p.1 else none
+  let ab := pick above true
+  let lp := pick live true
+  let ns := pick live false
+  s!"Z={showRat (evidence ws)} ess={showRat (essCode ws)} kish={showRat (essKish ws)} " ++
+  s!"ratio={showRat (ratioLin ab ws)} ratio_ns={showRat (ratioNsLin lp ns)} err2={showRat (errSq ws)} rel2={showRat (relErrSq ws)}"
+
+def handle (toks : List String) : String :=
+  match toks with
+  | ["std", f, it, c, t, cap, nl, live, nested, traj] =>
+    match parseBool? f, parseInt? it, parseExt? c, parseExt? t, parseCap? cap, parseInt? nl,
+          parseOpt? (parseList? parseNat?) live, parseList? parseNat? nested, parseList? parseExt? traj with
+    | some f, some it, some c, some t, some cap, some nl, some live, some nested, some traj =>
+      let s : Std Ext := {
+        finalised := f, iteration := it, condition := c, tolerance := t, maxIteration := cap,
+                           nlive := nl, live := live, nested := nested, incs := [], bodies := 0, traj := traj }
+      match stdRun stdScriptBody traj.length s with
+      | none => "running"
+      | some (k, s1) =>
+        match stdRun stdScriptBody s1.traj.length s1 with
+        | none => s!"k={k} {showStd s1} k2=running"
+        | some (k2, s2) => s!"k={k} {showStd s1} k2={k2} same={showBool (sameStd s1 s2)}"
+    | _, _, _, _, _, _, _, _, _ => "bad-op"
+  | ["ins", f, it, c, t, any, mn, cap, live, nested, traj] =>
+    match parseBool? f, parseInt? it, parseList? parseExt? c, parseList? parseExt? t, parseBool? any, parseInt? mn,
+          parseCap? cap, parseOpt? (parseList? parseNat?) live, parseList? parseNat? nested,
+          parseList? (parseList? parseExt?) traj with
+    | some f, some it, some c, some t, some any, some mn, some cap, some live, some nested, some traj =>
+      let s : Ins Ext := {
+        finalised := f, iteration := it, criterion := c, tolerance := t, stopAny := any,
+                           minIteration := mn, maxIteration := cap, live := live, nested := nested, bodies := 0, traj := traj }
+      match insRun insScriptBody traj.length s with
+      | none => "running"
+      | some (k, s1) =>
+        match insRun insScriptBody s1.traj.length s1 with
+        | none => s!"k={k} {showIns s1} k2=running"
+        | some (k2, s2) => s!"k={k} {showIns s1} k2={k2} same={showBool (sameIns s1 s2)}"
+    | _, _, _, _, _, _, _, _, _, _ => "bad-op"
+  | ["reached", any, c, t] =>
+    match parseBool? any, parseList? parseExt? c, parseList? parseExt? t with
+    | some any, some c, some t =>
+      showBool (reached ({
+        finalised := false, iteration := 0, criterion := c, tolerance := t, stopAny := any,
+        minIteration := 0, maxIteration := .inf, live := none, nested := [], bodies := 0, traj := [] } : Ins Ext))
+    | _, _, _ => "bad-op"
+  | ["cfg", names, n, check] =>
+    match parseList? (fun s => some s) names, parseNat? n with
+    | some names, some n =>
+      match configureStopping names n check with
+      | .ok (sc, any) => s!"ok {showList id sc} any={showBool any}"
+      | .error .unknownCriterion => "err=unknown"
+      | .error .lengthMismatch => "err=length"
+      | .error .badCheck => "err=check"
+    | _, _ => "bad-op"
+  | ["cfgit", mn, mx] =>
+    match parseOpt? parseInt? mn, parseOpt? parseInt? mx with
+    | some mn, some mx => s!"min={cfgMinIteration mn} max={showCap (cfgMaxIteration mx)}"
+    | _, _ => "bad-op"
+  | ["cfgmax", mx] =>
+    match parseOpt? parseInt? mx with
+    | some mx => s!"max={showCap (stdCfgMaxIteration mx)}"
+    | _ => "bad-op"
+  | ["crit", ws, above, live] =>
+    match parseList? parseRat? ws, parseList? parseBool? above, parseList? parseBool? live with
+    | some ws, some above, some live =>
+      if above.length != ws.length || live.length != ws.length then "bad-op" else critLine ws above live
+    | _, _, _ => "bad-op"
+  | _ => "bad-op"
+
 end NessaiVerif.Driver.Loops
